@@ -1,0 +1,364 @@
+//! The decisions of `matches.rs` and `closures.rs` about the braces of a match-arm body and of a
+//! closure body, run on parsed snippets: the text is parsed the way `format_project` parses a
+//! file, every match arm and every closure is handed to the real functions at a given shape,
+//! and what they consulted and returned is reported.
+//!
+//! Encoding of an expression (prefix notation, fields joined by `,`):
+//! * `L,<kind>,<attrs>` an expression none of the decisions looks into: `if wh fo lo ma ar mc mac
+//!   st tu ge tb cb re br co ro ot` (if, while, for, loop, match, array, method call, macro call,
+//!   struct literal, tuple, gen block, try block, const block, return, break, continue, a range
+//!   without a left operand, anything else);
+//! * `U,<kind>,<attrs>,<e>` an expression with a first operand some decision follows: `ad tr un
+//!   ix ca cl bi ty as ao fi ra` (`&e`, `e?`, unary, `e[..]`, `e as T`, `e(..)`, binary,
+//!   type ascription, `e = ..`, `e += ..`, `e.f`, `e..`);
+//! * `C,<ret 0|1>,<attrs>,<body>` a closure and whether it has an explicit return type;
+//! * `BE,<hdr>,<rest>,<e>` / `BS,<hdr>,<rest>,<e>` a block whose first statement is the
+//!   expression `e` without / with a semicolon, `BO,<hdr>,<stmts>` any other block; `<hdr>` is
+//!   `<unsafe 0|1>:<length of the label's name | ->:<contains_comment 0|1>:<outer
+//!   attributes>:<inner attributes>`; statements are letters `l` let, `i` item, `m` macro, `0` empty, `o` an
+//!   expression behind the first statement (`-` for none).
+
+use rustc_ast::ast;
+use rustc_ast::visit::{self, Visitor};
+use rustc_span::Pos;
+
+use crate::config::Config;
+use crate::expr::{RhsTactics, block_contains_comment, prefer_next_line};
+use crate::parse::parser::Parser;
+use crate::parse::session::ParseSess;
+use crate::rewrite::{RewriteContext, RewriteResult};
+use crate::shape::{Indent, Shape};
+use crate::visitor::FmtVisitor;
+use crate::{FormatReport, Input, utils};
+
+/// One match arm (`arm`) or closure (`closure`) and what the code made of it.
+///
+/// `arm`: `body` / `bodyn` (the body encoded; `bodyn` leaves empty statements out), `ovh`
+/// (the width kept free behind the pattern), `flatn` / `flats` (`flatten_arm_body` without and
+/// with a shape: `<extend 0|1>;<expression>`), `canflat`, `canbe`, `comma` (`arm_comma` on the
+/// flattened body), `shapeok`, `orig` (`e` error, `-` no shape, `o<multi-line><fits the
+/// width><first line fits the budget>`), `next` (`e` | `o`), `prefer` (`prefer_next_line`, `-`
+/// unless both attempts succeeded), `arrow` (a comment behind `=>`), `out`
+/// (`rewrite_match_body` behind the pattern text, or behind a two-line text when `pats_ml`),
+/// `outarm` (`rewrite_match_arm`), `last`.
+///
+/// `closure`: `body` / `bodyn`, `ret`, `prefixml`, `inner` (`get_inner_expr`), `forced`, `veto`,
+/// `reqsemi`, `innerrw` (`e` | `1` one line | `m`), `expr` (`rewrite_closure_expr` succeeded),
+/// `wbo` / `wbb` (`rewrite_closure_with_block` at the closure's / the body's shape succeeded),
+/// `block` (`rewrite_closure_block`: `-` | `0` | `1`), `out` (`rewrite_closure`).
+#[derive(Debug, Clone)]
+pub struct Rec {
+    pub kind: &'static str,
+    pub lo: usize,
+    pub hi: usize,
+    pub kv: Vec<(&'static str, String)>,
+}
+
+impl Rec {
+    pub fn get(&self, key: &str) -> Option<&str> {
+        self.kv
+            .iter()
+            .find(|(k, _)| *k == key)
+            .map(|(_, v)| v.as_str())
+    }
+}
+
+/// Where and how the probes are run.
+#[derive(Debug, Clone, Default)]
+pub struct Opts {
+    /// block indentation of the shape (its width is what `max_width` leaves)
+    pub indent: usize,
+    /// hand `rewrite_match_body` a two-line left-hand side instead of the pattern's text
+    pub pats_ml: bool,
+    /// the `has_guard` argument of `rewrite_match_body` (the guard takes more than one line)
+    pub has_guard: bool,
+    /// `is_last`; `None`: whether the arm is the last one of its match
+    pub force_last: Option<bool>,
+    /// run with `RewriteContext::inside_macro` set
+    pub inside_macro: bool,
+}
+
+fn b(x: bool) -> String {
+    (if x { "1" } else { "0" }).to_owned()
+}
+
+fn res(r: &RewriteResult) -> String {
+    match r {
+        Ok(s) => s.clone(),
+        Err(_) => "!err".to_owned(),
+    }
+}
+
+fn stmt_letter(s: &ast::Stmt) -> char {
+    match s.kind {
+        ast::StmtKind::Let(..) => 'l',
+        ast::StmtKind::Item(..) => 'i',
+        ast::StmtKind::MacCall(..) => 'm',
+        ast::StmtKind::Empty => '0',
+        ast::StmtKind::Expr(..) | ast::StmtKind::Semi(..) => 'o',
+    }
+}
+
+/// The encoding described in the module documentation.
+pub(crate) fn enc(context: &RewriteContext<'_>, e: &ast::Expr, drop_empty: bool) -> String {
+    let a = e.attrs.len();
+    let leaf = |k: &str| format!("L,{k},{a}");
+    let un = |k: &str, sub: &ast::Expr| format!("U,{k},{a},{}", enc(context, sub, drop_empty));
+    match e.kind {
+        ast::ExprKind::Block(ref block, ref label) => {
+            let outer = e
+                .attrs
+                .iter()
+                .filter(|a| a.style == ast::AttrStyle::Outer)
+                .count();
+            let hdr = format!(
+                "{}:{}:{}:{}:{}",
+                b(crate::expr::is_unsafe_block(block)),
+                label.map_or("-".to_owned(), |l| l.ident.as_str().len().to_string()),
+                b(block_contains_comment(context, block)),
+                outer,
+                a - outer,
+            );
+            let stmts: Vec<&ast::Stmt> = block
+                .stmts
+                .iter()
+                .filter(|s| !(drop_empty && matches!(s.kind, ast::StmtKind::Empty)))
+                .collect();
+            let letters = |ss: &[&ast::Stmt]| {
+                if ss.is_empty() {
+                    "-".to_owned()
+                } else {
+                    ss.iter().map(|s| stmt_letter(s)).collect::<String>()
+                }
+            };
+            match stmts.first().map(|s| &s.kind) {
+                Some(ast::StmtKind::Expr(first)) => format!(
+                    "BE,{hdr},{},{}",
+                    letters(&stmts[1..]),
+                    enc(context, first, drop_empty)
+                ),
+                Some(ast::StmtKind::Semi(first)) => format!(
+                    "BS,{hdr},{},{}",
+                    letters(&stmts[1..]),
+                    enc(context, first, drop_empty)
+                ),
+                _ => format!("BO,{hdr},{}", letters(&stmts)),
+            }
+        }
+        ast::ExprKind::Closure(ref c) => format!(
+            "C,{},{a},{}",
+            b(matches!(c.fn_decl.output, ast::FnRetTy::Ty(..))),
+            enc(context, &c.body, drop_empty)
+        ),
+        ast::ExprKind::AddrOf(_, _, ref sub) => un("ad", sub),
+        ast::ExprKind::Try(ref sub) => un("tr", sub),
+        ast::ExprKind::Unary(_, ref sub) => un("un", sub),
+        ast::ExprKind::Index(ref sub, _, _) => un("ix", sub),
+        ast::ExprKind::Cast(ref sub, _) => un("ca", sub),
+        ast::ExprKind::Call(ref sub, _) => un("cl", sub),
+        ast::ExprKind::Binary(_, ref sub, _) => un("bi", sub),
+        ast::ExprKind::Type(ref sub, _) => un("ty", sub),
+        ast::ExprKind::Assign(ref sub, _, _) => un("as", sub),
+        ast::ExprKind::AssignOp(_, ref sub, _) => un("ao", sub),
+        ast::ExprKind::Field(ref sub, _) => un("fi", sub),
+        ast::ExprKind::Range(Some(ref sub), _, _) => un("ra", sub),
+        ast::ExprKind::Range(None, _, _) => leaf("ro"),
+        ast::ExprKind::If(..) => leaf("if"),
+        ast::ExprKind::While(..) => leaf("wh"),
+        ast::ExprKind::ForLoop { .. } => leaf("fo"),
+        ast::ExprKind::Loop(..) => leaf("lo"),
+        ast::ExprKind::Match(..) => leaf("ma"),
+        ast::ExprKind::Array(..) => leaf("ar"),
+        ast::ExprKind::MethodCall(..) => leaf("mc"),
+        ast::ExprKind::MacCall(..) => leaf("mac"),
+        ast::ExprKind::Struct(..) => leaf("st"),
+        ast::ExprKind::Tup(..) => leaf("tu"),
+        ast::ExprKind::Gen(..) => leaf("ge"),
+        ast::ExprKind::TryBlock(..) => leaf("tb"),
+        ast::ExprKind::ConstBlock(..) => leaf("cb"),
+        ast::ExprKind::Ret(..) => leaf("re"),
+        ast::ExprKind::Break(..) => leaf("br"),
+        ast::ExprKind::Continue(..) => leaf("co"),
+        _ => leaf("ot"),
+    }
+}
+
+struct Walk<'a, 'c> {
+    context: &'a RewriteContext<'c>,
+    shape: Shape,
+    opts: &'a Opts,
+    base: usize,
+    recs: Vec<Rec>,
+}
+
+impl<'a, 'c> Walk<'a, 'c> {
+    fn rec(&mut self, kind: &'static str, span: rustc_span::Span, kv: Vec<(&'static str, String)>) {
+        self.recs.push(Rec {
+            kind,
+            lo: span.lo().to_usize() - self.base,
+            hi: span.hi().to_usize() - self.base,
+            kv,
+        });
+    }
+
+    fn arm(&mut self, arm: &ast::Arm, is_last_arm: bool) {
+        let Some(ref body) = arm.body else {
+            return;
+        };
+        let context = self.context;
+        let is_last = self.opts.force_last.unwrap_or(is_last_arm);
+        let pat = context.snippet(arm.pat.span).to_owned();
+        let pats_str = if self.opts.pats_ml {
+            format!(
+                "{pat}\n{}| {pat}",
+                self.shape.indent.to_string(context.config)
+            )
+        } else {
+            pat.clone()
+        };
+        let arrow_span = utils::mk_sp(arm.pat.span.hi(), body.span.lo());
+        let p = crate::matches::verif_local_braces::probe_body(
+            context,
+            body,
+            &pats_str,
+            self.shape,
+            self.opts.has_guard,
+            arrow_span,
+            is_last,
+        );
+        let flat = |f: &(bool, &ast::Expr)| format!("{};{}", b(f.0), enc(context, f.1, false));
+        let orig = match p.orig {
+            None => "-".to_owned(),
+            Some((Err(_), _)) => "e".to_owned(),
+            Some((Ok(ref s), budget)) => format!(
+                "o{}{}{}",
+                b(s.contains('\n')),
+                b(utils::unicode_str_width(s) <= budget),
+                b(utils::first_line_width(s) <= budget)
+            ),
+        };
+        let prefer = match (&p.orig, &p.next) {
+            (Some((Ok(o), _)), Ok(n)) => b(prefer_next_line(o, n, RhsTactics::Default)),
+            _ => "-".to_owned(),
+        };
+        let has_pipe = pat.starts_with('|');
+        let outarm =
+            crate::matches::verif_local_braces::arm(context, arm, self.shape, is_last, has_pipe);
+        let kv = vec![
+            ("body", enc(context, body, false)),
+            ("bodyn", enc(context, body, true)),
+            ("pat", pat),
+            ("last", b(is_last)),
+            (
+                "ovh",
+                crate::matches::verif_local_braces::pat_shape_overhead(body).to_string(),
+            ),
+            ("flatn", flat(&p.flat_none)),
+            ("flats", flat(&p.flat_some)),
+            ("canflat", b(p.can_flatten)),
+            ("canbe", b(p.can_be_flattened)),
+            ("comma", b(p.comma == ",")),
+            ("shapeok", b(p.shape_ok)),
+            ("orig", orig),
+            ("next", (if p.next.is_ok() { "o" } else { "e" }).to_owned()),
+            ("prefer", prefer),
+            ("arrow", b(p.arrow_comment)),
+            ("out", res(&p.out)),
+            ("outarm", res(&outarm)),
+        ];
+        self.rec("arm", arm.span, kv);
+    }
+
+    fn closure(&mut self, ex: &ast::Expr, c: &ast::Closure) {
+        let context = self.context;
+        let out = crate::closures::rewrite_closure(
+            &c.binder,
+            c.constness,
+            c.capture_clause,
+            &c.coroutine_kind,
+            c.movability,
+            &c.fn_decl,
+            &c.body,
+            ex.span,
+            context,
+            self.shape,
+        );
+        let mut kv = vec![
+            ("body", enc(context, &c.body, false)),
+            ("bodyn", enc(context, &c.body, true)),
+            ("ret", b(matches!(c.fn_decl.output, ast::FnRetTy::Ty(..)))),
+        ];
+        match crate::closures::verif_local_braces::probe(c, ex.span, context, self.shape) {
+            Err(_) => kv.push(("probe", "!err".to_owned())),
+            Ok(p) => {
+                let innerrw = match p.inner_rw {
+                    Err(_) => "e",
+                    Ok(ref s) if s.contains('\n') => "m",
+                    Ok(_) => "1",
+                };
+                kv.extend([
+                    ("prefixml", b(p.prefix.contains('\n'))),
+                    ("inner", enc(context, p.inner, false)),
+                    ("forced", b(p.forced)),
+                    ("veto", b(p.veto)),
+                    ("reqsemi", b(p.requires_semi)),
+                    ("innerrw", innerrw.to_owned()),
+                    ("expr", b(p.expr.is_ok())),
+                    ("wbo", b(p.with_block_outer.is_ok())),
+                    ("wbb", b(p.with_block_body.is_ok())),
+                    (
+                        "block",
+                        p.block.as_ref().map_or("-".to_owned(), |r| b(r.is_ok())),
+                    ),
+                ]);
+            }
+        }
+        kv.push(("out", res(&out)));
+        self.rec("closure", ex.span, kv);
+    }
+}
+
+impl<'a, 'c, 'ast> Visitor<'ast> for Walk<'a, 'c> {
+    fn visit_expr(&mut self, ex: &'ast ast::Expr) {
+        match ex.kind {
+            ast::ExprKind::Match(_, ref arms, _) => {
+                let n = arms.len();
+                for (i, a) in arms.iter().enumerate() {
+                    self.arm(a, i + 1 == n);
+                }
+            }
+            ast::ExprKind::Closure(ref c) => self.closure(ex, c),
+            _ => {}
+        }
+        visit::walk_expr(self, ex);
+    }
+}
+
+/// Parses `src` as a file and reports every match arm and every closure, in the order a
+/// pre-order walk meets them. `None` when the text does not parse.
+pub fn analyze(src: &str, config: &Config, opts: &Opts) -> Option<Vec<Rec>> {
+    let mut config = config.clone();
+    config.set().show_parse_errors(false);
+    rustc_span::create_session_if_not_set_then(config.edition().into(), |_| {
+        let psess = ParseSess::new(&config).ok()?;
+        let krate = Parser::parse_crate(Input::Text(src.to_owned()), &psess).ok()?;
+        let provider = psess.snippet_provider(krate.spans.inner_span);
+        let base = provider.start_pos().to_usize();
+        let visitor = FmtVisitor::from_psess(&psess, &config, &provider, FormatReport::new());
+        let context = visitor.get_context();
+        if opts.inside_macro {
+            context.inside_macro.replace(true);
+        }
+        let mut walk = Walk {
+            context: &context,
+            shape: Shape::indented(Indent::new(opts.indent, 0), &config),
+            opts,
+            base,
+            recs: vec![],
+        };
+        for item in &krate.items {
+            walk.visit_item(item);
+        }
+        Some(walk.recs)
+    })
+}
